@@ -14,7 +14,17 @@ from collections import Counter
 from mc.checks.c03 import canonical_numbering
 from mc.drivers import bpm, mutate
 from mc.drivers.scenarios import SCENARIOS
-from mc.drivers.terms import norm_type_json as norm
+
+
+def norm(j):
+    """JSON value comparison: only arrays that are sets by schema meaning are order-insensitive;
+    spellings (e.g. Unit vs General sums) must be preserved exactly."""
+    if isinstance(j, list):
+        return [norm(x) for x in j]
+    if isinstance(j, dict):
+        return {k: (sorted(v) if k in ("runtime_reqs", "es", "extension_delta", "extensions") and isinstance(v, list) and all(isinstance(x, str) for x in v) else norm(v)) for k, v in j.items()}
+    return j
+
 from mc.engine import e2
 from mc.engine.core import Collector, Result, Violation
 
